@@ -3,7 +3,7 @@
 ** Script operations (dispatched from sfh.c's run_line, one transcript line each):
 **
 **   ledger begin                 warm up (stdio buffers, the library's own lazily initialised state), make a private TMPDIR
-**                                for this process, install malloc/free hooks of the ASan runtime, then take the baseline:
+**                                for this process and make it the working directory, install malloc/free hooks of the ASan runtime, then take the baseline:
 **                                live heap blocks/bytes, the descriptor table (/proc/self/fd), the TMPDIR listing.
 **   ledger peek hN               owners of handle hN as the private struct shows them (no hook in the library: the harness
 **                                is compiled against the tree's own common.h):
@@ -50,7 +50,7 @@ static int hooks_on, begun ;
 static long base_blocks, base_bytes ;
 static size_t base_total ;
 static int base_fds [MAX_FDS], n_base_fds ;
-static char tmpdir [256] ;
+static char tmpdir [256], old_cwd [1024] ;
 static int base_store_blocks ;
 static long base_store_bytes ;
 
@@ -156,6 +156,10 @@ ledger_begin (void)
 	snprintf (tmpdir, sizeof (tmpdir), "%s/sfh-tmp-%d", base ? base : "/var/tmp", (int) getpid ()) ;
 	mkdir (tmpdir, 0700) ;
 	setenv ("TMPDIR", tmpdir, 1) ;
+	/* the private directory is also the working directory from here on: a file the library creates under a relative name
+	** (psf_open_tmpfile's fallback, a resource fork looked up with an empty file name) shows up in the `tmp=` listing */
+	if (getcwd (old_cwd, sizeof (old_cwd)) == NULL) old_cwd [0] = 0 ;
+	if (chdir (tmpdir) != 0) { }
 	warm_up () ;
 	if (!hooks_on)
 	{	__sanitizer_install_malloc_and_free_hooks (on_malloc, on_free) ;
@@ -255,6 +259,7 @@ ledger_end (void)
 		unlink (p) ;
 		}
 	printf ("\n") ;
+	if (old_cwd [0] && chdir (old_cwd) != 0) { }
 	rmdir (tmpdir) ;
 	begun = 0 ;
 }
